@@ -32,7 +32,7 @@ CHECKS = [
          note="Trusted: rustc's MIR dump, the mirsmt encoder (validated each run in concrete mode against the native build), the solvers, and two meta-arguments (invariant induction; additive accumulator loop => exact sum mod 2^W). Windows longer than 65536 bytes and roll on an empty window are outside the claim.",
          technique="SMT over MIR (symbolic execution of rustc MIR, integer encoding with explicit wrap); inductive invariant step; loop acceleration"),
     dict(pid="C01", level="model_checking",
-         text="Signature::generate, SignatureTable::{from_signature,has_weak_match,find_match} and the whole scan loop of CopiaSync::delta with Delta::push_* are executed symbolically from the compiler's MIR on a basis and a source of symbolic bytes (one instance per concrete (basis length, source length, block size) triple); SMT shows for every content: the result is Ok, the header fields are those of the source, op lengths sum to the source size, every copy is block-aligned inside the basis, adjacent ops are merged, and interpreting the ops against the basis yields the source. Weak-hash collisions are covered (the digest is an arbitrary function of the window). The same is decided for the AsyncCopiaSync::delta state machine, the two engines are shown to produce identical deltas op for op, and on further instances the whole chain generate -> delta -> patch (both engines, patch from MIR too) is shown to succeed with output == source in one query.",
+         text="Signature::generate, SignatureTable::{from_signature,has_weak_match,find_match} and the whole scan loop of CopiaSync::delta with Delta::push_* are executed symbolically from the compiler's MIR on a basis and a source of symbolic bytes (one instance per concrete (basis length, source length, block size) triple); SMT shows for every content: the result is Ok, the header fields are those of the source, op lengths sum to the source size, every copy is block-aligned inside the basis, adjacent ops are merged, and interpreting the ops against the basis yields the source. Weak-hash collisions are covered (the digest is an arbitrary function of the window). The same is decided for the AsyncCopiaSync::delta state machine, the two engines are shown to produce identical deltas op for op, and on further instances the whole chain generate -> delta -> patch (both engines, patch from MIR too) is shown to succeed with output == source in one query. Engine/path independence of signatures: AsyncCopiaSync::signature (coroutine MIR, reader delivering the input in arbitrary pieces) equals Signature::generate on small inputs, and the parallel (> 64 KiB, rayon) branch of Signature::generate equals the sequential definition on inputs of 65537-200000 symbolic bytes.",
          ref="DESIGN.md §4 C01",
          note="Bounded: quick up to 6/6 bytes, block sizes 1-4; thorough up to 10/10, block sizes 1-5. Leaves replaced by contracts: rolling checksums (contract decided by C17), BLAKE3 as an ideal collision-free hash. std models (Vec, HashMap as math map, iterator adaptors, in-memory reader) are trusted and validated each run in concrete mode against the native build. NOT covered: AsyncCopiaSync unless the evidence lists it, sync_files, the CLI chain through bincode files, > 64 KiB inputs / the rayon path, I/O errors.",
          technique="SMT over MIR (symbolic execution of the real pipeline with state merging; bounded unrolling with unwinding assertions; contract summaries); native replay"),
